@@ -92,6 +92,9 @@ Proof. exact family_accepts_iff_l. Qed.
 Theorem C10_generated_caps_agree : cap_generated_parser = Some cap_build_rs /\ cap = cap_build_rs.
 Proof. exact gen_caps_agree. Qed.
 
+Theorem C10_generated_lists_are_push : forallb snd recursive_production_flags = true.
+Proof. exact gen_recursive_productions_push. Qed.
+
 Theorem C10_generated_families_ok : forallb family_ok all_families = true.
 Proof. exact gen_families_ok. Qed.
 
@@ -130,5 +133,6 @@ Print Assumptions C10_walker_frames_bounded.
 Print Assumptions C10_family_depth_exact.
 Print Assumptions C10_family_accept_iff.
 Print Assumptions C10_generated_caps_agree.
+Print Assumptions C10_generated_lists_are_push.
 Print Assumptions C10_generated_families_ok.
 Print Assumptions C10_generated_nesting_bounded.
